@@ -12,7 +12,8 @@
 (***************************************************************************)
 EXTENDS RuleSet, TLC, Json
 
-CONSTANTS MaxOps, Names      \* Names: TRUE = also the function-name table
+CONSTANTS MaxOps, Names,     \* Names: TRUE = also the function-name table
+          Scale              \* n > 0: instead, long histories over n rule / function names and 3n symbol entries (ScaleHistories)
 VARIABLES ops, b             \* the calls made so far (with their results), the accepted builder state
 vars == <<ops, b>>
 
@@ -41,6 +42,26 @@ NamePool == Reserved \cup {
   <<233>>, <<97, 233>>, <<20013>>, <<97, 183, 98>>, <<183, 97>>, <<1633>>, <<97, 1633>>, <<95, 183>>,
   <<128512>>, <<97, 128512>>, <<97, 768>>, <<768>>, <<95, 160, 120>> }
 
+\* ---- scale: long histories ------------------------------------------------------------
+D2(k) == <<48 + ((k \div 10) % 10), 48 + (k % 10)>>
+RN(k) == [name |-> S("r") \o D2(k), expr |-> Val(I(k))]
+FN(k) == F(S("fn") \o D2(k))
+SN(k) == S("s") \o D2(k)
+\* 1..n with positions p and p+1 exchanged
+Swapped(n, p) == [i \in 1..n |-> IF i = p THEN p + 1 ELSE IF i = p + 1 THEN p ELSE i]
+ScaleHistories ==
+  LET n == Scale IN
+  \* rules added one by one, almost in name order; then every name again (each must be refused)
+  { [i \in 1..n |-> [op |-> "with_rule", rule |-> RN(Swapped(n, p)[i])]] \o [i \in 1..n |-> [op |-> "with_rule", rule |-> RN(i)]] : p \in 1..(n - 1) }
+  \* the same in one batch, then single re-additions and a batch holding one duplicate at its end
+  \cup { <<[op |-> "with_rules", rules |-> [i \in 1..n |-> RN(Swapped(n, p)[i])]]>> \o [i \in 1..n |-> [op |-> "with_rules", rules |-> <<RN(n + i), RN(i)>>]] : p \in 1..(n - 1) }
+  \* functions likewise
+  \cup { [i \in 1..n |-> [op |-> "with_function", f |-> FN(Swapped(n, p)[i])]] \o [i \in 1..n |-> [op |-> "with_function", f |-> FN(i)]] : p \in {1, n \div 2, n - 1} }
+  \cup { <<[op |-> "with_functions", fs |-> [i \in 1..n |-> FN(Swapped(n, p)[i])]]>> \o [i \in 1..n |-> [op |-> "with_functions", fs |-> <<FN(i)>>]] : p \in {1, n - 1} }
+  \* one batch of 3n symbol entries: 2n defaults in descending name order, then n overrides of every second name
+  \cup { <<[op |-> "with_symbols", tab |-> [i \in 1..(2 * n) |-> <<SN(2 * n + 1 - i), I(i)>>] \o [i \in 1..n |-> <<SN(2 * i), I(1000 + i)>>]]>>,
+         <<[op |-> "with_symbols", tab |-> [i \in 1..(2 * n) |-> <<SN(i), I(i)>>]]>> \o [i \in 1..n |-> [op |-> "with_symbol", n |-> SN(3 * i - 2), v |-> I(2000 + i)]] }
+
 BApply(bb, o) ==
   CASE o.op = "with_rule" -> WithRule(bb, o.rule)
     [] o.op = "with_rules" -> WithRules(bb, o.rules)
@@ -50,14 +71,18 @@ BApply(bb, o) ==
     [] o.op = "with_symbols" -> WithSymbols(bb, o.tab)
 ResultOf(x) == IF x.ok THEN [ok |-> TRUE] ELSE [ok |-> FALSE, e |-> x.e, n |-> x.n]
 
-Init == /\ ops = <<>> /\ b = EmptyBuilder
+RECURSIVE FoldOps(_, _, _, _)
+FoldOps(os, i, bb, acc) == IF i > Len(os) THEN <<acc, bb>>
+                           ELSE LET x == BApply(bb, os[i]) IN FoldOps(os, i + 1, x.b, Append(acc, os[i] @@ [x |-> ResultOf(x)]))
+Init == IF Scale = 0 THEN ops = <<>> /\ b = EmptyBuilder
+        ELSE \E h \in ScaleHistories : LET r == FoldOps(h, 1, EmptyBuilder, <<>>) IN ops = r[1] /\ b = r[2]
 Do(o) == LET x == BApply(b, o) IN
          /\ ops' = Append(ops, [o EXCEPT !.op = o.op] @@ [x |-> ResultOf(x)])
          /\ b' = x.b
 IsNameTable == IF ops = <<>> THEN FALSE ELSE "nametable" \in DOMAIN ops[1]
-Next == \/ /\ Len(ops) < MaxOps /\ ~IsNameTable
+Next == \/ /\ Scale = 0 /\ Len(ops) < MaxOps /\ ~IsNameTable
            /\ \E o \in OpPool : Do(o)
-        \/ /\ Names /\ ops = <<>>
+        \/ /\ Scale = 0 /\ Names /\ ops = <<>>
            /\ \E n \in NamePool : LET o == [op |-> "with_function", f |-> F(n)] x == BApply(b, o) IN
                 /\ ops' = << o @@ [x |-> ResultOf(x), nametable |-> TRUE] >>
                 /\ b' = x.b
@@ -86,8 +111,8 @@ RefusalNamesOffender ==
 \* cross-module: every keyword token of the grammar is reserved (checked against Lexer.tla in MC_Lexer)
 
 \* ---- probes: what does the built ruleset hold? ----------------------------------------
-ProbeFns == << S("f"), S("g"), S("if"), S("in") >>
-ProbeSyms == << S("s"), S("t") >>
+ProbeFns == IF Scale = 0 THEN << S("f"), S("g"), S("if"), S("in") >> ELSE [i \in 1..(Scale + 1) |-> FN(i).name]
+ProbeSyms == IF Scale = 0 THEN << S("s"), S("t") >> ELSE [i \in 1..(2 * Scale + 1) |-> SN(i)]
 NameTableProbe == IF IsNameTable THEN <<ops[1].f.name>> ELSE <<>>
 PF == ProbeFns \o NameTableProbe
 ProbeRules == [i \in 1..Len(PF) |-> [name |-> <<1, 102, 48 + i>>, expr |-> Call(PF[i], Val(I(0)))]]
